@@ -6,6 +6,7 @@ import (
 	"bytes"
 	"encoding/json"
 	"fmt"
+	"strings"
 	"testing"
 
 	"pgregory.net/rapid"
@@ -164,6 +165,63 @@ func doWrite(c *writeCase, w *iofault.FailWriter, cw *iofault.CountWriter) error
 	}
 }
 
+// emptyWrites counts Write calls that hand over no bytes.
+type emptyWrites struct{ n int }
+
+func (e *emptyWrites) Write(p []byte) (int, error) {
+	if len(p) == 0 {
+		e.n++
+	}
+	return len(p), nil
+}
+
+// padToEmptyWrite lengthens the name of one glyph by 0..511 characters until
+// the writer issues a Write call without data (a buffering layer flushed when
+// it was exactly empty: the encrypted portion is then a multiple of its block
+// size); a fault on such a call is a fault at a write call like any other.
+func padToEmptyWrite(c *writeCase) bool {
+	g := &type1.Glyph{WidthX: 500}
+	g.MoveTo(1, 2)
+	g.LineTo(30, 40)
+	g.ClosePath()
+	// some Write calls without data occur for every font (empty template
+	// fields); looked for is a length at which one more of them appears
+	count := func(k int) int {
+		name := "pad" + strings.Repeat("x", k)
+		c.Font.Glyphs[name] = g
+		defer delete(c.Font.Glyphs, name)
+		var e emptyWrites
+		var err error
+		if c.Form == 5 {
+			_, _, err = c.Font.WritePDF(&e)
+		} else {
+			err = c.Font.Write(&e, &type1.WriterOptions{Format: type1.FileFormat(c.Form)})
+		}
+		if err != nil {
+			return -1
+		}
+		return e.n
+	}
+	best, bestK, least := -1, -1, 1<<30
+	for k := 0; k < 512; k++ {
+		n := count(k)
+		if n < 0 {
+			return false
+		}
+		if n > best {
+			best, bestK = n, k
+		}
+		if n < least {
+			least = n
+		}
+	}
+	if best == least {
+		return false
+	}
+	c.Font.Glyphs["pad"+strings.Repeat("x", bestK)] = g
+	return true
+}
+
 func checkWrite(c *writeCase) (string, bool) {
 	w := &iofault.FailWriter{AtCall: c.AtCall, AtByte: c.AtByte, Once: c.Once}
 	err := doWrite(c, w, nil)
@@ -176,7 +234,7 @@ func checkWrite(c *writeCase) (string, bool) {
 func TestP2WriteFaults(t *testing.T) {
 	rec := ev.New("C13", "writefaults")
 	defer rec.Finish(t)
-	rec.Rule("for each generated font (x 4 formats and WritePDF; a quarter of them with one charstring of 600-1800 bytes, i.e. a single write spanning several internal buffers) and metrics value (Metrics.Write): a write fault at EVERY write-call index 0..calls and at EVERY byte offset 0..bytes (short write + error), each as a persistent fault (all later calls fail too) and as a transient one (later calls succeed), counted on a fault-free dry run first. Oracle: a delivered fault makes the writer return a non-nil error, without panic. Non-trivial: fault delivered; distinct by (value, form, point).")
+	rec.Rule("for each generated font (x 4 formats and WritePDF; a quarter of them with one charstring of 600-1800 bytes, i.e. a single write spanning several internal buffers) and metrics value (Metrics.Write): a write fault at EVERY write-call index 0..calls and at EVERY byte offset 0..bytes (short write + error), each as a persistent fault (all later calls fail too) and as a transient one (later calls succeed), counted on a fault-free dry run first; one font per shard is padded (glyph name lengthened by 0-511 characters) until its output contains a Write call without data, if the writer makes such calls at all - that call is a fault point too. Oracle: a delivered fault makes the writer return a non-nil error, without panic. Non-trivial: fault delivered; distinct by (value, form, point).")
 	ev.SetupRapid(48, 1200)
 	caseNo := 0
 	shard, _ := ev.Shard()
@@ -187,7 +245,11 @@ func TestP2WriteFaults(t *testing.T) {
 		// the eexec layer (PFA, binary or WritePDF by shard), so that this class
 		// occurs in every run whatever is drawn
 		forced := caseNo == 2
-		if !forced && rapid.IntRange(0, 3).Draw(t, "kind") == 0 {
+		// the third case of every shard is a font padded so that some Write
+		// call of the output carries no data (if the writer ever makes such
+		// calls)
+		padded := caseNo == 3
+		if !forced && !padded && rapid.IntRange(0, 3).Draw(t, "kind") == 0 {
 			base.Metrics = inputs.Metrics(t)
 			base.Form = 6
 		} else {
@@ -195,6 +257,12 @@ func TestP2WriteFaults(t *testing.T) {
 			base.Form = rapid.IntRange(1, 5).Draw(t, "form")
 			if forced {
 				base.Form = []int{1, 3, 5}[shard%3]
+			}
+			if padded {
+				base.Form = []int{5, 3, 1}[shard%3]
+				if padToEmptyWrite(&base) {
+					rec.Class("write-call-without-data")
+				}
 			}
 			if forced || rapid.IntRange(0, 3).Draw(t, "longglyph") == 0 {
 				// one charstring of 600-1800 bytes: a single write into the
